@@ -438,3 +438,39 @@ def fix_variants(rnd, t):
             kids.append((rnd.choice(JAVA_LEAVES), []))
         kids = kids[:3]
     return (name, kids)
+
+
+_PRIVATE = []
+
+
+def private_serialization(gt, ctx):
+    """A second Serialization instance, customised the documented way
+    (entries of its ``codecs`` replaced, removed and added) and kept alive
+    for the whole run: what one instance is told must not reach the
+    process-wide ``AuxData.serializer`` that every judged call goes
+    through."""
+    ser = getattr(gt, "Serialization", None)
+    mod = getattr(gt, "serialization", None)
+    if ser is None or mod is None:
+        ctx.note("no public Serialization class: private-instance step "
+                 "skipped")
+        return
+    try:
+        priv = ser()
+        codecs = priv.codecs
+        swap = {"string": "Uint64Codec", "Addr": "Int64Codec",
+                "uint8_t": "Int64Codec", "sequence": "SetCodec",
+                "float": "DoubleCodec"}
+        for name, cls in swap.items():
+            c = getattr(mod, cls, None)
+            if c is not None and name in codecs:
+                codecs[name] = c
+        for name in ("bool", "UUID", "tuple"):
+            codecs.pop(name, None)
+        codecs["foo"] = getattr(mod, "StringCodec", None) or next(
+            iter(codecs.values()))
+        _PRIVATE.append(priv)
+        ctx.count("private_serialization_instances_customised")
+    except Exception as e:  # a read-only table, say: nothing to leak then
+        ctx.note("private Serialization could not be customised: %s"
+                 % type(e).__name__)
